@@ -949,6 +949,9 @@ func (m *Model) pickReturn(ev Event) {
 		}
 		if extraMethod {
 			m.v("C17", "method-mapping", facts, "extra method "+c.MethodName+": "+msg, ev.Op)
+		} else if c.Method == MNoAff && prop != "C04" {
+			// listed in a method entry that has no affinity section: "no other method is mapped"
+			m.v("C17", "method-mapping", "no-affinity-entry", "method of an entry without an affinity section: "+msg, ev.Op)
 		} else if m.cfgFaulted && prop != "C04" && m.s.plan.Profile == "config" {
 			m.v("C17", "config-not-fixed", facts, "after config mutation / second config: "+msg, ev.Op)
 		} else if (prop == "C03" || prop == "C02") && (m.cfg.defaulted["wm"] || m.cfg.defaulted["max"]) && m.s.plan.Profile == "config" {
